@@ -83,6 +83,16 @@ def m_timedelta(eng, days=0, seconds=0, microseconds=0, milliseconds=0, minutes=
                 if any(is_sym(p[0]) for p in parts if p[0] is not v) or any(
                         (not is_sym(p[0])) and p[0] != 0 for p in parts):
                     raise Unsupported("timedelta from several fields with a non-integral symbolic float")
+                if v.t is None:
+                    # CPython's accum()/delta_new: whole part exact, fractional part scaled in double arithmetic and
+                    # rounded half-to-even:  us = trunc(x)*k + round_half_even(RN(k * (x - trunc(x))))
+                    tv = eng.as_tracked(v)
+                    whole = eng.real_to_int(tv.real, "trunc")
+                    frac = eng.frac_part(tv, whole)                  # modf is exact
+                    y = eng.real_binop(ast.Mult, frac, k)
+                    us = eng.op("Add", eng.op("Mult", whole, k), m_round_float(eng, y))
+                    check_td_range(eng, us)
+                    return SymTD(us)
                 # nan / inf raise natively
                 t = eng.to_fp(v)
                 if eng.decide(z3.fpIsNaN(t)):
@@ -102,6 +112,12 @@ def m_timedelta(eng, days=0, seconds=0, microseconds=0, milliseconds=0, minutes=
         total = eng.op("Add", total, eng.op("Mult", v, k))
     check_td_range(eng, total)
     return SymTD(total)
+
+
+def m_round_float(eng, y):
+    if isinstance(y, float):
+        return round(y)
+    return eng.real_to_int(eng.real_of(y), "round")
 
 
 def binop(eng, op, a, b):
